@@ -6,7 +6,7 @@ density matrix over the basis functions and returns point-wise fields).
 """
 import numpy as np
 
-from vf.core import use_repo
+from vf.core import use_repo, present_points
 
 use_repo()
 from gbasis.evals import density as gd  # noqa: E402
@@ -44,6 +44,32 @@ class Q:
         return self.fn(basis, env, transform)
 
 
+def _pts(env):
+    """The evaluation points in the array form the environment asks for (see core.present_points); default: float64 array."""
+    if env.get("points_form") is None:
+        return _a(env, "points")
+    return present_points(env["points"], env["points_form"])[0]
+
+
+def _pts64(env):
+    """As _pts, for functions that document `dtype` int/float for their points (electrostatic potential): a float32 grid is
+    handed over as the float64 array of the same values."""
+    x = _pts(env)
+    return x.astype(float) if x.dtype == np.float32 else x
+
+
+def with_point_form(env, selector):
+    """Environment whose points are handed to the library in the array form `selector` (layout / integer grid / float32 grid);
+    the stored coordinates become the values that form denotes.  An integer grid is not used when it would put a point within
+    1e-3 bohr of a nucleus (the electrostatic potential is singular there)."""
+    _, vals, form = present_points(env["points"], selector)
+    if form == "integer-dtype":
+        nuc = np.array(env.get("nuc_coords", []), dtype=float).reshape(-1, 3)
+        if nuc.size and np.min(np.linalg.norm(vals[:, None, :] - nuc[None, :, :], axis=2)) < 1e-3:
+            return env, "c-float64"
+    return dict(env, points=vals.tolist(), points_form=int(selector)), form
+
+
 def _a(env, key, dtype=float):
     """Array view of an environment entry; an ndarray of the right dtype is passed through as the same object (C19 relies on
     the library receiving the pooled objects themselves)."""
@@ -54,11 +80,11 @@ def _a(env, key, dtype=float):
 
 
 INDEXED = [
-    Q("evaluate_basis", lambda b, e, t: evaluate_basis(b, _a(e, "points"), transform=t), axes=(0,)),
-    Q("evaluate_deriv_basis", lambda b, e, t: evaluate_deriv_basis(b, _a(e, "points"), _a(e, "deriv_order", int), transform=t),
+    Q("evaluate_basis", lambda b, e, t: evaluate_basis(b, _pts(e), transform=t), axes=(0,)),
+    Q("evaluate_deriv_basis", lambda b, e, t: evaluate_deriv_basis(b, _pts(e), _a(e, "deriv_order", int), transform=t),
       axes=(0,)),
     Q("evaluate_deriv_basis[direct]", lambda b, e, t: evaluate_deriv_basis(
-        b, _a(e, "points"), np.minimum(_a(e, "deriv_order", int), 2), transform=t, deriv_type="direct"), axes=(0,)),
+        b, _pts(e), np.minimum(_a(e, "deriv_order", int), 2), transform=t, deriv_type="direct"), axes=(0,)),
     Q("overlap_integral", lambda b, e, t: overlap_integral(b, transform=t), axes=(0, 1)),
     Q("overlap_integral[tol_screen]", lambda b, e, t: overlap_integral(b, transform=t, tol_screen=e.get("tol_screen", 1e-6)), axes=(0, 1)),
     Q("kinetic_energy_integral", lambda b, e, t: kinetic_energy_integral(b, transform=t), axes=(0, 1)),
@@ -79,21 +105,21 @@ ERI = [
 ]
 _BIG = 1e300  # threshold that never raises: relations are about values, the threshold rule is C06's
 DENSITY = [
-    Q("evaluate_density", lambda b, g, e, t: gd.evaluate_density(g, b, _a(e, "points"), transform=t, threshold=_BIG), density=True, order=0),
-    Q("evaluate_deriv_density", lambda b, g, e, t: gd.evaluate_deriv_density(_a(e, "deriv_order", int), g, b, _a(e, "points"),
+    Q("evaluate_density", lambda b, g, e, t: gd.evaluate_density(g, b, _pts(e), transform=t, threshold=_BIG), density=True, order=0),
+    Q("evaluate_deriv_density", lambda b, g, e, t: gd.evaluate_deriv_density(_a(e, "deriv_order", int), g, b, _pts(e),
                                                                              transform=t), density=True, order="deriv_order"),
-    Q("evaluate_density_gradient", lambda b, g, e, t: gd.evaluate_density_gradient(g, b, _a(e, "points"), transform=t), density=True, order=1),
-    Q("evaluate_density_laplacian", lambda b, g, e, t: gd.evaluate_density_laplacian(g, b, _a(e, "points"), transform=t), density=True, order=2),
-    Q("evaluate_density_hessian", lambda b, g, e, t: gd.evaluate_density_hessian(g, b, _a(e, "points"), transform=t), density=True, order=2),
+    Q("evaluate_density_gradient", lambda b, g, e, t: gd.evaluate_density_gradient(g, b, _pts(e), transform=t), density=True, order=1),
+    Q("evaluate_density_laplacian", lambda b, g, e, t: gd.evaluate_density_laplacian(g, b, _pts(e), transform=t), density=True, order=2),
+    Q("evaluate_density_hessian", lambda b, g, e, t: gd.evaluate_density_hessian(g, b, _pts(e), transform=t), density=True, order=2),
     Q("evaluate_posdef_kinetic_energy_density", lambda b, g, e, t: gd.evaluate_posdef_kinetic_energy_density(
-        g, b, _a(e, "points"), transform=t, threshold=_BIG), density=True, order=2),
+        g, b, _pts(e), transform=t, threshold=_BIG), density=True, order=2),
     Q("electrostatic_potential", lambda b, g, e, t: electrostatic_potential(
-        b, g, _a(e, "points"), _a(e, "nuc_coords").reshape(-1, 3), _a(e, "nuc_charges"), transform=t), density=True, tol=1e-8, order=None),
-    Q("evaluate_stress_tensor", lambda b, g, e, t: gs.evaluate_stress_tensor(g, b, _a(e, "points"), alpha=e["alpha"], beta=e["beta"],
+        b, g, _pts64(e), _a(e, "nuc_coords").reshape(-1, 3), _a(e, "nuc_charges"), transform=t), density=True, tol=1e-8, order=None),
+    Q("evaluate_stress_tensor", lambda b, g, e, t: gs.evaluate_stress_tensor(g, b, _pts(e), alpha=e["alpha"], beta=e["beta"],
                                                                             transform=t), density=True, order=2),
-    Q("evaluate_ehrenfest_force", lambda b, g, e, t: gs.evaluate_ehrenfest_force(g, b, _a(e, "points"), alpha=e["alpha"],
+    Q("evaluate_ehrenfest_force", lambda b, g, e, t: gs.evaluate_ehrenfest_force(g, b, _pts(e), alpha=e["alpha"],
                                                                                 beta=e["beta"], transform=t), density=True, order=3),
-    Q("evaluate_ehrenfest_hessian", lambda b, g, e, t: gs.evaluate_ehrenfest_hessian(g, b, _a(e, "points"), alpha=e["alpha"],
+    Q("evaluate_ehrenfest_hessian", lambda b, g, e, t: gs.evaluate_ehrenfest_hessian(g, b, _pts(e), alpha=e["alpha"],
                                                                                     beta=e["beta"], transform=t), density=True, order=4),
 ]
 ALL = INDEXED + ERI + DENSITY
